@@ -154,6 +154,225 @@ def sha1_padding(chk, prog, rule="R1.sha1_padding"):
             decide("block loop starts at 0", d[3][0], qlin.const(0), "", b.where(blk))
 
 
+def sha1_structure(chk, prog, orc, rule="R1.sha1_structure"):
+    """RFC 3174 section 6.1, pinned by data flow (no names, no positions): W[0..15] are the big-endian words of the block;
+    W[t] = rotl1(W[t-3] ^ W[t-8] ^ W[t-14] ^ W[t-16]) for t in 16..80; A..E start from H0..H4; each round sets
+    TEMP = rotl5(A) + f + E + K + W[t], E=D, D=C, C=rotl30(B), B=A, A=TEMP; H_k += (A..E)_k after the 80 rounds; the digest is
+    H0..H4 big-endian in order.  Together with the padding (R1.sha1_padding) and the f/K table (R1.sha1) this is the whole algorithm."""
+    from .. import wordsym as ws
+    from .c01 import some_edge_of
+    fs = [p for p in prog.bodies if p.endswith("SHA1Hash>::hash")]
+    if not fs:
+        return
+    fn = fs[0]
+    b = prog.bodies[fn]
+
+    def ob(site, ok, detail="", where=""):
+        chk.ob(rule, fn, site, ok, detail, where=where or b.file)
+
+    def root_copy(l, depth=0):
+        ds = b.defs().get(l, [])
+        if depth < 8 and len(ds) == 1 and ds[0][2] == "assign" and not ds[0][3]["pl"]["p"] and ds[0][3]["rv"]["k"] in ("use", "cast"):
+            o = ds[0][3]["rv"]["o"]
+            if o.get("pl") and not o["pl"]["p"]:
+                return root_copy(o["pl"]["l"], depth + 1)
+        return l
+
+    # H0..H4 by their initial constants
+    H = []
+    for v in orc["sha1_init"]:
+        ls = [l for l, loc in enumerate(b.locals) if loc["ty"] == "u32" and
+              any(d[2] == "assign" and not d[3]["pl"]["p"] and d[3]["rv"]["k"] == "use" and d[3]["rv"]["o"].get("v") == v for d in b.defs().get(l, []))]
+        H.append(ls[0] if len(ls) == 1 else None)
+    ob("five chaining variables initialised with the RFC constants", None not in H and len(set(H)) == 5, f"{H}")
+    if None in H:
+        return
+    # H_k <- wrapping_add(H_k, X_k)
+    X = []
+    for k, h in enumerate(H):
+        upd = [d for d in b.defs()[h] if not (d[2] == "assign" and d[3]["rv"]["k"] == "use" and d[3]["rv"]["o"].get("k") == "const")]
+        x = None
+        if len(upd) == 1:
+            src = None
+            if upd[0][2] == "assign" and upd[0][3]["rv"]["k"] == "use" and upd[0][3]["rv"]["o"].get("pl"):
+                src = upd[0][3]["rv"]["o"]["pl"]["l"]
+            elif upd[0][2] == "call":
+                src = h
+            for d in b.defs().get(src, []) if src is not None else []:
+                if d[2] == "call" and d[3]["callee"].endswith("wrapping_add"):
+                    args = [root_copy(core.op_local(a)) for a in d[3]["args"]]
+                    if h in args and len(args) == 2:
+                        x = [a for a in args if a != h]
+                        x = x[0] if len(x) == 1 else None
+        X.append(x)
+    ob("after the rounds H_k = H_k + (working variable k), k = 0..4 (wrapping)", None not in X and len(set(X)) == 5,
+       f"working variables {[b.local_name(x) if x is not None else None for x in X]}")
+    if None in X or len(set(X)) != 5:
+        return
+    # A..E <- H0..H4 at the start of each block
+    init_ok = all(any(d[2] == "assign" and d[3]["rv"]["k"] == "use" and root_copy(core.op_local(d[3]["rv"]["o"]) if core.op_local(d[3]["rv"]["o"]) is not None else -1) == H[k]
+                      for d in b.defs()[X[k]]) for k in range(5))
+    ob("working variables start each block as copies of H0..H4, in order", init_ok)
+    # ---- the round
+    r5 = [blk for blk, t in b.calls_to(r"num::<impl u32>::rotate_left$") if core.describe(prog, b, t["args"][1]) == ("lit", 5)]
+    chk.floor("SHA-1 round (rotate_left(.., 5) site)", len(r5), 1)
+    if r5:
+        names = "ABCDE"
+        env = {X[k]: ("v", names[k]) for k in range(5)}
+        w = ws.Walk(prog, b, env=env)
+        w.run(r5[0])
+        got = [w.env.get(X[k]) for k in range(5)]
+        leaves = ws.flatten(got[0], callname="wrapping_add") if got[0] else []
+        rot = ("call", "rotate_left", [("v", "A"), ("lit", 5)])
+        rest = [x for x in leaves if x != rot and x != ("v", "E")]
+        ob("TEMP is the wrapping sum of exactly five terms including rotl5(A) and E", len(leaves) == 5 and rot in leaves and ("v", "E") in leaves,
+           f"TEMP = {ws.show(got[0]) if got[0] else None}", where=b.where(r5[0]))
+        # the other three: f, K (the two halves of the per-round table entry) and W[t]
+        fk = [x for x in rest if x[0] == "v"]
+        tup = set()
+        halves = set()
+        word = None
+        def local_named(nm):
+            return next((i for i, loc in enumerate(b.locals) if (loc.get("name") or f"_{i}") == nm), None)
+        for x in rest:
+            if x[0] == "field" and x[1][0] == "v":
+                tl = local_named(x[1][1])
+                if tl is not None and "(u32, u32)" in b.local_ty(tl):
+                    tup.add(tl)
+                    halves.add(x[2])
+                continue
+            l = local_named(x[1]) if x[0] == "v" else None
+            if l is None:
+                continue
+            ds = b.defs().get(l, [])
+            if len(ds) == 1 and ds[0][2] == "assign" and ds[0][3]["rv"]["k"] == "use" and ds[0][3]["rv"]["o"].get("pl") and \
+                    [e[0] for e in ds[0][3]["rv"]["o"]["pl"]["p"]] == ["f"] and "(u32, u32)" in b.local_ty(ds[0][3]["rv"]["o"]["pl"]["l"]):
+                tup.add(ds[0][3]["rv"]["o"]["pl"]["l"])
+                halves.add(ds[0][3]["rv"]["o"]["pl"]["p"][0][1])
+            else:
+                dd = core.describe(prog, b, l)
+                if desc_contains(dd, lambda y: y[0] == "call" and y[1].endswith("::next")):
+                    word = dd
+        ob("the remaining addends are f and K of the round's table entry", len(tup) == 1 and halves == {0, 1}, f"{[ws.show(x) for x in rest]}")
+        chunk_l = next((l for l, loc in enumerate(b.locals) if loc["ty"] == "[u32; 80]"), None)
+        w_ok = word is not None and desc_contains(word, lambda y: y[0] == "call" and y[1].endswith("::enumerate")) and \
+            desc_contains(word, lambda y: y[0] == "call" and y[1].endswith("<impl [T]>::iter"))
+        ob("... and W[t], taken from the 80-word schedule in order (iter().enumerate())", w_ok, f"{panics.short_desc(word) if word else None}")
+        ob("B' = A", got[1] == ("v", "A"), f"B' = {ws.show(got[1]) if got[1] else None}")
+        ob("C' = rotl30(B)", got[2] == ("call", "rotate_left", [("v", "B"), ("lit", 30)]), f"C' = {ws.show(got[2]) if got[2] else None}")
+        ob("D' = C", got[3] == ("v", "C"), f"D' = {ws.show(got[3]) if got[3] else None}")
+        ob("E' = D", got[4] == ("v", "D"), f"E' = {ws.show(got[4]) if got[4] else None}")
+    # ---- f / K pairing, by data flow: each table entry's boolean function is over B, C, D and goes with its own constant
+    def tt(term):
+        def ev(t, env):
+            if t[0] == "v":
+                return env.get(t[1])
+            if t[0] == "op" and t[1] in ("BitAnd", "BitOr", "BitXor"):
+                x, y = ev(t[2], env), ev(t[3], env)
+                if x is None or y is None:
+                    return None
+                return {"BitAnd": x & y, "BitOr": x | y, "BitXor": x ^ y}[t[1]]
+            if t[0] == "not":
+                x = ev(t[1], env)
+                return None if x is None else x ^ 1
+            return None
+        return [ev(term, {"B": bb, "C": cc, "D": dd}) for bb in (0, 1) for cc in (0, 1) for dd in (0, 1)]
+    entries = [(i, st["pl"]["l"]) for i, blk in enumerate(b.blocks) for st in blk["stmts"]
+               if st.get("rv") and st["rv"].get("k") == "agg" and st["rv"].get("agg") == "tuple" and len(st["rv"]["ops"]) == 2 and "(u32, u32)" in b.local_ty(st["pl"]["l"])]
+    chk.floor("SHA-1 f/K table entries", len(entries), 4)
+    by_k = {}
+    for kname, kv in orc["sha1_k"].items():
+        by_k.setdefault(kv, []).append(orc["sha1_f"][kname])
+    seen_k = []
+    for blk_i, tl in entries:
+        w2 = ws.Walk(prog, b, env={X[k]: ("v", "ABCDE"[k]) for k in range(5)})
+        w2.run(blk_i)
+        tv = w2.env.get(tl)
+        if not tv or tv[0] != "tuple":
+            ob("table entry is a (f, K) pair", False, f"{tv}", where=b.where(blk_i))
+            continue
+        fterm, kterm = tv[1]
+        kval = kterm[1] if kterm[0] == "lit" else None
+        seen_k.append(kval)
+        want = by_k.get(kval)
+        table = tt(fterm)
+        ob(f"K = 0x{(kval or 0):08X} is paired with f = {want[0] if want else '?'} over (B, C, D)", bool(want) and table == REF[want[0]],
+           f"f = {ws.show(fterm)} has truth table {table}", where=b.where(blk_i))
+    ob("the four round constants each occur once", sorted(k for k in seen_k if k is not None) == sorted(set(orc["sha1_k"].values())) and len(seen_k) == 4, f"{seen_k}")
+    # ---- the schedule
+    chunk_l = next((l for l, loc in enumerate(b.locals) if loc["ty"] == "[u32; 80]"), None)
+    chk.floor("SHA-1 80-word schedule array", 1 if chunk_l is not None else 0, 1)
+    nexts = {}
+    for blk, t in b.calls_to(r"Iterator>::next$|Iterator::next$"):
+        d = core.describe(prog, b, t["args"][0])
+        for c in core.desc_calls(d):
+            if c[1].endswith("into_iter") and c[2] and c[2][0][0] == "variant" and c[2][0][2] == "Range":
+                lo, hi = c[2][0][3]
+                if lo[0] == "lit" and hi[0] == "lit":
+                    nexts[(lo[1], hi[1])] = blk
+    ob("schedule loops: t in 0..16 (load) and 16..80 (expand)", (0, 16) in nexts and (16, 80) in nexts, f"{sorted(nexts)}")
+    for rng, what in (((16, 80), "expand"), ((0, 16), "load")):
+        if rng not in nexts or chunk_l is None:
+            continue
+        edges = some_edge_of(prog, b, nexts[rng], "Some")
+        if not edges:
+            ob(f"{what}: loop body found", False)
+            continue
+        w = ws.Walk(prog, b, arrays=[chunk_l])
+        w.run(edges[0][1], stop=[nexts[rng]])
+        st = [(ix, val) for arr, ix, val in w.stores if arr == chunk_l]
+        if not st:
+            ob(f"{what}: stores into the schedule", False, "none found")
+            continue
+        I = st[-1][0]
+        final = st[-1][1]
+        ob(f"{what}: every store targets W[t]", all(ix == I for ix, _ in st), f"{[ws.show(ix) for ix, _ in st]}")
+        if what == "expand":
+            okr = final[0] == "call" and final[1] == "rotate_left" and final[2][1] == ("lit", 1)
+            xs = ws.flatten(final[2][0], opname="BitXor") if okr else []
+            offs = []
+            for x in xs:
+                if x[0] == "elem" and x[2][0] == "op" and x[2][1] == "Sub" and x[2][2] == I and x[2][3][0] == "lit":
+                    offs.append(x[2][3][1])
+                else:
+                    offs.append(ws.show(x))
+            ob("expand: W[t] = rotl1(W[t-3] ^ W[t-8] ^ W[t-14] ^ W[t-16])", okr and sorted(offs, key=str) == [14, 16, 3, 8] or (okr and sorted(o for o in offs if isinstance(o, int)) == [3, 8, 14, 16] and len(offs) == 4),
+                   f"W[t] = {ws.show(final)[:200]}", where=b.where(nexts[rng]))
+        else:
+            ok = final[0] == "call" and final[1] == "from_be_bytes"
+            rngs = []
+
+            def find(t):
+                if isinstance(t, tuple):
+                    if t[0] == "adt" and t[1] == "Range":
+                        rngs.append(t)
+                    for y in t[1:]:
+                        if isinstance(y, (tuple, list)):
+                            find(y) if isinstance(y, tuple) else [find(z) for z in y]
+            find(final)
+            aff = None
+            if rngs:
+                s0, e0 = ws.affine(rngs[0][2][0]), ws.affine(rngs[0][2][1])
+                ikey = ws.show(I)
+                coef_i = s0.get(ikey, 0)
+                others = {k: v for k, v in s0.items() if k not in ("", ikey)}
+                diff = {k: e0.get(k, 0) - s0.get(k, 0) for k in set(s0) | set(e0)}
+                aff = (coef_i, sorted(others.values()), s0.get("", 0), {k: v for k, v in diff.items() if v})
+            ok2 = aff is not None and aff[0] == 4 and aff[1] == [64] and aff[2] == 0 and aff[3] == {"": 4}
+            ob("load: W[t] = big-endian word at message[64*block + 4*t .. + 4]", ok and ok2, f"W[t] = {ws.show(final)[:160]}; offsets {aff}", where=b.where(nexts[rng]))
+    # ---- the digest
+    arrs = [(i, st["rv"]) for i, blk in enumerate(b.blocks) for st in blk["stmts"] if st.get("rv") and st["rv"].get("k") == "agg" and st["rv"].get("agg") == "array" and len(st["rv"]["ops"]) == 5]
+    order = [[root_copy(core.op_local(o)) for o in rv["ops"]] for i, rv in arrs]
+    ob("the digest is assembled from [H0, H1, H2, H3, H4] in this order", H in order, f"{order}")
+    cl = [c for c in prog.closures_of(fn) if c.calls_to(r"num::<impl u32>::to_(be|le|ne)_bytes$")]
+    ob("each H_k is written big-endian", len(cl) >= 1 and all(t["callee"].endswith("to_be_bytes") for c in cl for _, t in c.calls_to(r"num::<impl u32>::to_(be|le|ne)_bytes$")), "")
+    d0 = None
+    for blk, t in b.calls_to(r"Iterator::zip$"):
+        d0 = [core.describe(prog, b, a) for a in t["args"]]
+    okz = d0 is not None and desc_contains(d0[0], lambda y: y[0] == "call" and y[1].endswith("iter_mut")) and desc_contains(d0[1], lambda y: y[0] == "call" and y[1].endswith("flat_map"))
+    ob("the 20 output bytes are the flattened words in order (result.iter_mut().zip(words.flat_map(bytes)))", okz, f"{[panics.short_desc(x) for x in d0] if d0 else None}")
+
+
 def base64(chk, prog, orc):
     a = core.const_value(prog, "humphrey_ws::util::base64::ALPHABET")
     s = None
@@ -794,11 +1013,17 @@ def run(chk):
         "ranges and boolean functions — compared by truth table —, rotation amounts, big-endian conversions, 0x80 padding; Base64 alphabet, symbol offsets, "
         "masks/shifts, '=' padding; RFC 3986 unreserved set; day/month names, March-first month lengths, the 2000-03-01 epoch and its weekday, 4/100/400-year "
         "day counts, IMF-fixdate template and field order); sibling agreement of the Base64 decoder arms' shift; hex-digit gates before from_str_radix in "
-        "percent_decode; panic inventory of the two decoders.")
-    chk.not_decided = "the SHA-1 compression function as a whole, Base64 bit shuffling and the civil-date algorithm for every input (value properties)"
-    chk.assumptions = ["rustc type checking / HIR / MIR", "oracles/constants.json transcribes the RFC constants"]
+        "percent_decode; panic inventory of the two decoders. Decided for every input: the SHA-1 padding arithmetic (R-ARITH) and, by data flow, the whole "
+        "compression structure (word load, schedule recurrence, round update, f/K pairing, chaining, digest order), so the function is RFC 3174's method 1; "
+        "the Base64 encoder bit by bit (R-BITS) with its group slicing, and the decoder's grouping / shift / output structure, so decode inverts encode; "
+        "the HTTP date's day number, second of day, weekday, hour, minute, second as functions of the timestamp (R-ARITH).")
+    chk.not_decided = ("year / month / day-of-month of the HTTP date (they run through the month loop); percent-encoding of every byte beyond the unreserved-set "
+                       "table and the hex gate; std's u32::rotate_left / wrapping_add / from_be_bytes (trusted)")
+    chk.assumptions = ["rustc type checking / HIR / MIR", "oracles/constants.json transcribes the RFC constants",
+                       "no integer overflow in the date / padding arithmetic for |timestamp| < 2^62 and lengths < 2^56"]
     sha1(chk, prog, orc)
     sha1_padding(chk, prog)
+    sha1_structure(chk, prog, orc)
     base64(chk, prog, orc)
     base64_encoder_bits(chk, prog)
     base64_decoder_structure(chk, prog)
